@@ -9,7 +9,7 @@
    links crossed (beyond: the listed finding C04-EVAL-LOOP-ERROR - MemFS answers ELOOP, Go goes on to 255 links and a
    non-errno error). *)
 From Avfs Require Import Base BaseProofs PathModel PathSpec PathProofs PathCleanProofs PathIterProofs.
-From Avfs Require Import MemFS MemFile World Posix Inv InvPath WalkBridge WalkSym WalkBudget WalkReadlink WalkRel WalkInv.
+From Avfs Require Import MemFS MemFile World Posix Inv InvPath WalkBridge WalkSym WalkBudget WalkReadlink WalkRel StepEq WalkInv.
 
 Lemma render_abs_abs_path (l : list str) : render_abs l = abs_path l.
 Proof. reflexivity. Qed.
@@ -245,3 +245,83 @@ Section Eval.
         * apply (IH F j gd cur (kcomps t ++ rest) (S links) _ _ Hg Hw Hok2 Hmd2); auto; try lia.
   Qed.
 End Eval.
+
+(* ---- directory walks to a directory are unique (C05) ------------------------------------------------------------------ *)
+Lemma dwalk_walk (h : heap) (u : user) : forall (ns : list str) (d e : nat), dwalk h u d ns = Some e -> walk h d ns e.
+Proof.
+  induction ns as [|n ns IH]; intros d e H.
+  - injection H as <-. constructor.
+  - apply dwalk_cons_inv in H as (c & H1 & _ & _ & H4).
+    change (n :: ns) with ([n] ++ ns). apply (walk_app h d [n] c ns e); [|apply IH; exact H4].
+    apply (walk_snoc h d [] d n c); [constructor|]. apply alookup_in. exact H1.
+Qed.
+
+Lemma dwalk_unique (h : heap) (u : user) (root : nat) (a b : list str) (p : nat) :
+  Inv_heap h -> node_is_dir h p = true -> dwalk h u root a = Some p -> dwalk h u root b = Some p -> a = b.
+Proof.
+  intros I Hd Ha Hb. exact (walk_unique h root I a p (dwalk_walk h u a root p Ha) b (dwalk_walk h u b root p Hb) Hd).
+Qed.
+
+(* ---- C04_eval ------------------------------------------------------------------------------------------------------------ *)
+Theorem eval_agree (s : fsys) (sv : sview) (cs : list str) (Tk : nat) :
+  let v := sv_view sv in
+  let h := f_heap s in
+  v_os v = Linux -> us_admin (v_user v) = true -> Inv_heap h -> links_clean h -> node_is_dir h (v_root v) = true ->
+  Forall good_comp cs -> kbound h Tk -> length cs + MAXSYMLINKS * Tk + 2 < WALK_FUEL ->
+  klookup s sv false true (abs_path cs) <> WErr EFUEL ->
+  klookup s sv false true (abs_path cs) <> WErr ELOOP ->        (* at most 40 links crossed: C04-EVAL-LOOP-ERROR otherwise *)
+  sr_err (search_node s v (abs_path cs) SlEval) <> EFuel ->
+  proj_res Linux (eval_symlinks s v (abs_path cs)) = go_eval_symlinks s sv (abs_path cs).
+Proof.
+  intros v h Hos Hadm I Hlc Hrd Hg Hkb Hsz Hk1 Hk2 Hnf. subst v h.
+  pose proof (Inv_heap_walk_wf _ I) as Hwf.
+  pose proof (sym_bridge_lookup_x s sv SlEval cs Hos Hwf Hlc Hrd Hg) as R. cbv zeta in R.
+  change (follow_of SlEval) with true in R. change (precise_of SlEval) with true in R. specialize (R Hk1 Hnf).
+  unfold go_eval_symlinks. change (kabs (abs_path cs)) with true. cbv iota.
+  rewrite (kcomps_abs_path cs (Forall_comp_ok_of Hg)).
+  rewrite (klookup_abs_path s sv false true cs Hg) in R, Hk1, Hk2.
+  assert (HF : WALK_FUEL < 20000) by (apply Nat.ltb_lt; vm_compute; reflexivity).
+  pose proof (go_sim s sv Hwf Hlc Hrd Hadm Tk (length cs + MAXSYMLINKS * Tk) Hkb Hsz
+                WALK_FUEL 20000 0 [] (v_root (sv_view sv)) cs 0 (match cs with [] => true | _ => false end) _
+                (Forall_nil _) eq_refl (Forall_comp_ok_of Hg)
+                ltac:(destruct cs; [right; reflexivity|left; reflexivity])
+                ltac:(cbn [length]; rewrite Nat.sub_0_r; lia) HF eq_refl Hk1 Hk2) as G.
+  change (repeat DD 0 ++ []) with (@nil str) in G. unfold eval_symlinks.
+  remember (go_walk_symlinks 20000 s sv [] cs 0) as g eqn:Eg. clear Eg HF.
+  remember (search_node s (sv_view sv) (abs_path cs) SlEval) as r eqn:Er in *. clear Er.
+  destruct (kwalk WALK_FUEL (f_heap s) (v_user (sv_view sv)) (v_root (sv_view sv)) false true (v_root (sv_view sv)) cs 0
+              match cs with [] => true | _ => false end) as [par kind name n|par name md|a b c d|e];
+    cbn [walk_relx] in R; cbn [go_rel] in G.
+  - destruct G as (wp & Hwp & Eg & G1 & G2).
+    subst g.
+    destruct R as (R1 & R2 & R3 & _ & _ & R4 & R5).
+    rewrite R1.
+    cbn [is_file_exists negb proj_res].
+    f_equal.
+    destruct kind; try (destruct (R5 eq_refl ltac:(discriminate)) as (wp' & _ & Hw' & ->); f_equal;
+                        assert (Hd : node_is_dir (f_heap s) n = true)
+                          by (exact (proj1 (dwalk_end_dir _ _ _ _ _ Hw' Hrd (adm_perm s sv Hadm _ Hrd))));
+                        exact (dwalk_unique _ _ _ _ _ n I Hd Hw' (G2 ltac:(discriminate)))).
+    destruct (G1 eq_refl) as (gd' & -> & Hgw). destruct (R4 eq_refl) as (_ & R6).
+    destruct (at_name_views _ _ _ _ _ _ (R6 eq_refl)) as (_ & _ & done & -> & Hdw & _). f_equal. f_equal.
+    assert (Hd : node_is_dir (f_heap s) par = true)
+      by (exact (proj1 (dwalk_end_dir _ _ _ _ _ Hgw Hrd (adm_perm s sv Hadm _ Hrd)))).
+    exact (dwalk_unique _ _ _ _ _ par I Hd Hdw Hgw).
+  - subst g. destruct R as (R1 & _). rewrite R1. reflexivity.
+  - destruct G.
+  - subst g. destruct R as (R1 & _). destruct (werr_cases _ _ R1 Hnf) as (Hc & ->).
+    destruct Hc as [Hc|[Hc|[Hc|Hc]]]; rewrite Hc; reflexivity.
+Qed.
+
+Module WalkEvalExamples.
+  Import WalkSymExamples.
+  (* "/abs/top/e/f": abs -> "/d/e", top -> "../../d"; answer "/d/e/f".  "/d/up" (-> ".."): "/".  Dangling: ENOENT. *)
+  Example eval_examples :
+    proj_res Linux (eval_symlinks tree_fs adminv (abs_path [s_abs; s_top; s_e; s_f])) = SStr (abs_path [s_d; s_e; s_f])
+    /\ go_eval_symlinks tree_fs (sv_of adminv) (abs_path [s_abs; s_top; s_e; s_f]) = SStr (abs_path [s_d; s_e; s_f])
+    /\ proj_res Linux (eval_symlinks tree_fs adminv (abs_path [s_d; s_up])) = SStr (abs_path [])
+    /\ go_eval_symlinks tree_fs (sv_of adminv) (abs_path [s_d; s_up]) = SStr (abs_path [])
+    /\ proj_res Linux (eval_symlinks tree_fs adminv (abs_path [s_dang])) = SErr ENOENT
+    /\ go_eval_symlinks tree_fs (sv_of adminv) (abs_path [s_dang]) = SErr ENOENT.
+  Proof. vm_compute. repeat split; reflexivity. Qed.
+End WalkEvalExamples.
